@@ -275,6 +275,14 @@ Theorem C16_delete_nonindex_total : forall addr ideal s xp,
 Proof. exact delete_nonindex_total. Qed.
 Print Assumptions C16_delete_nonindex_total.
 
+(* results are values, not views of a shared buffer: what was kept from call j of
+   a history shows the row of call j whatever is called afterwards *)
+Theorem C16_results_retained : forall rows calls more j,
+  (j < length calls)%nat ->
+  nth j (ret_hist rows (calls ++ more)) [] = nth j (ret_hist rows calls) [].
+Proof. exact results_retained. Qed.
+Print Assumptions C16_results_retained.
+
 (* non-vacuity of the implications above *)
 Example C16_exact_hyp_met :
   src_wf (KF64, 4617315517961601024) = true /\
